@@ -260,7 +260,7 @@ def gen_mime_message(rng):
 def gen_tree(rng, depth, maxdepth, bad=False):
     """('leaf', ctype, enc, raw) | ('multi', subtype, boundary, [children], preamble, epilogue)"""
     if depth >= maxdepth or (depth > 0 and rng.randrange(3) == 0):
-        raw = b'\n'.join(rng.choice([b'hello needle', b'plain text', b'<p>html needle</p>', b'caf\xc3\xa9', b'x=y', b'line']) for _ in range(rng.randrange(1, 4))) + b'\n'
+        raw = b'\n'.join(rng.choice([b'hello needle', b'plain text', b'<p>html needle</p>', b'caf\xc3\xa9', b'x=y', b'line', b'line', b'--bnd0--x', b'--bnd1-- ', b'--bnd0 ']) for _ in range(rng.randrange(1, 4))) + b'\n'
         ctype = rng.choice([b'text/plain', b'text/plain; charset=utf-8', b'text/html', b'application/octet-stream', None])
         enc = rng.choice([None, b'base64', b'quoted-printable', b'7bit', b'8bit'])
         if bad and rng.randrange(bad if bad is not True else 12) == 0:
